@@ -283,6 +283,9 @@ enum Out {
     PanicSpawnedAwaited(u64),
     /// panic inside a detached spawned task; the main future never finishes
     PanicDetached(u64),
+    /// panic inside a detached task spawned on the runtime (tokio::spawn) rather than on the
+    /// LocalSet; the main future never finishes
+    PanicDetachedRuntime(u64),
     /// Err produced by a spawned task and propagated by the main future
     ErrSpawnedAwaited(u64),
     /// Err inside a detached task (dropped silently); main future returns Ok at the same time
@@ -301,7 +304,7 @@ impl Out {
     /// (finish time ms, kind) of the software's *main future*; None = never finishes
     fn finish(self) -> Option<(u64, char)> {
         match self {
-            Out::Absent | Out::Never | Out::PanicDetached(_) => None,
+            Out::Absent | Out::Never | Out::PanicDetached(_) | Out::PanicDetachedRuntime(_) => None,
             Out::Ok(t) | Out::ErrDetachedThenOk(t) | Out::OkLeavingTasks(t) => Some((t, 'o')),
             Out::Err(t) | Out::ErrSpawnedAwaited(t) => Some((t, 'e')),
             Out::PanicMain(t) | Out::PanicSpawnedAwaited(t) => Some((t, 'p')),
@@ -309,7 +312,7 @@ impl Out {
     }
     fn panic_time(self) -> Option<u64> {
         match self {
-            Out::PanicMain(t) | Out::PanicSpawnedAwaited(t) | Out::PanicDetached(t) => Some(t),
+            Out::PanicMain(t) | Out::PanicSpawnedAwaited(t) | Out::PanicDetached(t) | Out::PanicDetachedRuntime(t) => Some(t),
             _ => None,
         }
     }
@@ -365,6 +368,13 @@ async fn outcome_program(o: Out, polls: Rc<RefCell<u64>>) -> turmoil::Result {
                 tokio::task::spawn_local(async move {
                     tokio::time::sleep(ms(t)).await;
                     panic!("injected panic in detached task");
+                });
+                std::future::pending::<turmoil::Result>().await
+            }
+            Out::PanicDetachedRuntime(t) => {
+                tokio::spawn(async move {
+                    tokio::time::sleep(ms(t)).await;
+                    panic!("injected panic in detached runtime task");
                 });
                 std::future::pending::<turmoil::Result>().await
             }
@@ -428,14 +438,14 @@ enum RunRes {
 
 /// reference: outcome table -> set of acceptable results (boundary coincidences may be
 /// attributed to either adjacent step)
-fn reference(parts: &[(Out, bool)], tick: u64, dur: u64, random_order: bool) -> Vec<RunRes> {
+fn reference(parts: &[(Out, bool)], order: &[usize], tick: u64, dur: u64, random_order: bool) -> Vec<RunRes> {
     // parts: (outcome, is_client), in registration order. crashed hosts are Absent.
     let clients: Vec<Out> = parts.iter().filter(|p| p.1 && p.0 != Out::Absent).map(|p| p.0).collect();
     if clients.is_empty() {
         return vec![RunRes::Ok(0)];
     }
     // event times that sit on a step boundary are ambiguous: enumerate both attributions
-    let evs: Vec<(usize, u64)> = parts
+    let mut evs: Vec<(usize, u64)> = parts
         .iter()
         .enumerate()
         .flat_map(|(i, p)| {
@@ -451,6 +461,8 @@ fn reference(parts: &[(Out, bool)], tick: u64, dur: u64, random_order: bool) -> 
             v
         })
         .collect();
+    // a step visits the software in registration order
+    evs.sort_by_key(|e| order.iter().position(|&o| o == e.0).unwrap_or(usize::MAX));
     let amb: Vec<usize> = evs.iter().enumerate().filter(|(_, e)| e.1 > 0 && e.1 % tick == 0).map(|(k, _)| k).collect();
     let mut out = vec![];
     for mask in 0..(1u32 << amb.len()) {
@@ -530,14 +542,17 @@ pub fn c11_scenario(ch: &mut Chooser, thorough: bool) -> Exec {
         menu_a.push(Out::Ok(t));
         menu_a.push(Out::Err(t));
     }
-    menu_a.extend([Out::PanicMain(0), Out::PanicMain(3), Out::PanicSpawnedAwaited(1), Out::PanicDetached(3), Out::ErrSpawnedAwaited(3), Out::ErrDetachedThenOk(1), Out::OkLeavingTasks(1)]);
+    menu_a.extend([Out::PanicMain(0), Out::PanicMain(3), Out::PanicSpawnedAwaited(1), Out::PanicDetached(3), Out::PanicDetachedRuntime(3), Out::ErrSpawnedAwaited(3), Out::ErrDetachedThenOk(1), Out::OkLeavingTasks(1)]);
     let a = *ch.of("client_a", &menu_a);
-    let b = *ch.of("client_b", &[Out::Absent, Out::Ok(0), Out::Ok(5), Out::Never, Out::Ok(7)]);
-    let h = *ch.of("host", &[Out::Absent, Out::Never, Out::Err(1), Out::Err(7), Out::Ok(1), Out::PanicMain(3), Out::PanicDetached(1), Out::OkLeavingTasks(1)]);
+    let b = *ch.of("client_b", &[Out::Absent, Out::Ok(0), Out::Ok(5), Out::Never, Out::Ok(7), Out::Err(1), Out::Err(5)]);
+    let h = *ch.of("host", &[Out::Absent, Out::Never, Out::Err(1), Out::Err(7), Out::Ok(1), Out::PanicMain(3), Out::PanicDetached(1), Out::PanicDetachedRuntime(1), Out::OkLeavingTasks(1)]);
     LEFTOVER.with(|l| *l.borrow_mut() = (0, vec![]));
     let no_clients = a == Out::Never && b == Out::Absent && ch.flag("zero_clients_instead");
     let host_fault = if h != Out::Absent { *ch.of("host_fault", &["none", "crash-before-run", "bounce-before-run"]) } else { "none" };
     let by_step = ch.flag("drive_with_step_instead_of_run");
+    // registration order decides the order in which a step visits the software
+    let host_pos: usize = if h != Out::Absent && !no_clients { *ch.of("host_registered", &[0usize, 1, 2]) } else { 0 };
+    let host_pos = if b == Out::Absent { host_pos.min(1) } else { host_pos };
 
     let mut bld = builder(tick);
     bld.simulation_duration(Duration::from_millis(dur));
@@ -546,15 +561,26 @@ pub fn c11_scenario(ch: &mut Chooser, thorough: bool) -> Exec {
     }
     let mut sim = bld.build();
     let polls: Vec<Rc<RefCell<u64>>> = (0..3).map(|_| Rc::new(RefCell::new(0))).collect();
-    // registration order: host, client a, client b
-    if h != Out::Absent {
-        let p = polls[0].clone();
-        sim.host("h", move || outcome_program(h, p.clone()));
+    // registration order: the host before, between or after the clients a, b
+    let mut reg_host = |sim: &mut turmoil::Sim<'_>| {
+        if h != Out::Absent {
+            let p = polls[0].clone();
+            sim.host("h", move || outcome_program(h, p.clone()));
+        }
+    };
+    if host_pos == 0 {
+        reg_host(&mut sim);
     }
     if !no_clients {
         sim.client("a", outcome_program(a, polls[1].clone()));
+        if host_pos == 1 {
+            reg_host(&mut sim);
+        }
         if b != Out::Absent {
             sim.client("b", outcome_program(b, polls[2].clone()));
+        }
+        if host_pos == 2 {
+            reg_host(&mut sim);
         }
     }
     let mut h_eff = h;
@@ -568,7 +594,12 @@ pub fn c11_scenario(ch: &mut Chooser, thorough: bool) -> Exec {
     }
     let polls_h_at_crash = *polls[0].borrow();
     let parts: Vec<(Out, bool)> = vec![(h_eff, false), (if no_clients { Out::Absent } else { a }, true), (if no_clients { Out::Absent } else { b }, true)];
-    let want = reference(&parts, tick, dur, random_order);
+    let order: Vec<usize> = match host_pos {
+        0 => vec![0, 1, 2],
+        1 => vec![1, 0, 2],
+        _ => vec![1, 2, 0],
+    };
+    let want = reference(&parts, &order, tick, dur, random_order);
 
     let got: RunRes = {
         let r = vx_core::catch(|| {
@@ -608,7 +639,7 @@ pub fn c11_scenario(ch: &mut Chooser, thorough: bool) -> Exec {
     let want_adj: Vec<RunRes> = if no_clients || (a == Out::Absent) {
         if by_step {
             // step() with no clients: completion is reported by the first step (unless software fails in it)
-            let mut w = reference(&[(h_eff, false), (Out::Ok(0), true)], tick, dur, random_order);
+            let mut w = reference(&[(h_eff, false), (Out::Ok(0), true)], &[0, 1], tick, dur, random_order);
             w.push(RunRes::Ok(tick));
             w
         } else {
@@ -618,7 +649,7 @@ pub fn c11_scenario(ch: &mut Chooser, thorough: bool) -> Exec {
         want.clone()
     };
     let mut violation = None;
-    let obs = format!("tick={tick} dur={dur} a={a:?} b={b:?} h={h:?} fault={host_fault} zero_clients={no_clients} by_step={by_step} random={random_order} -> {got:?} (reference {want_adj:?})");
+    let obs = format!("tick={tick} dur={dur} a={a:?} b={b:?} h={h:?} host_registered={host_pos} fault={host_fault} zero_clients={no_clients} by_step={by_step} random={random_order} -> {got:?} (reference {want_adj:?})");
     if !want_adj.contains(&got) {
         let clause = match (&got, want_adj.first()) {
             (RunRes::Ok(_), Some(RunRes::Ok(_))) => "elapsed-at-return",
